@@ -16,6 +16,20 @@ register('C11', 'TLA+ Api spec: TLC-enumerated API programs replayed into optyx,
          'Trusted: TLC; the hand-written denotation rules in spec/Api.tla (element-wise NumPy semantics); the 80-line term interpreter (Fractions / mpmath).',
          'DESIGN.md 3 (C11)')
 
+API_NOTE = 'Trusted: TLC; the hand-written denotation rules in spec/Api.tla and the derivative table in spec/Diff.tla (TLC checks the table exact and the simplifier sound on the rational fragment, MC_Diff); the term interpreter (Fractions / mpmath at 50 digits). Bounded-exhaustive over the enumerated programs, variable orders and sample points; not a proof.'
+register('C01', 'TLA+ Api spec: TLC-enumerated programs replayed; compiled callables vs exact denotation on every variable order and internal path',
+         'TLC enumerates every API program up to MaxCalls calls whose result is scalar; for each, every permutation/superset variable list and the cache-miss, cache-hit and forced-iterative compile paths are executed on optyx and compared with the exact value of the denotation at rational points; parameters are changed after compiling.',
+         API_NOTE, 'DESIGN.md 3 (C01)')
+register('C02', 'TLA+ Diff spec (derivative table checked exact by TLC) as oracle for gradient() on TLC-enumerated programs',
+         'TLC checks that the spec derivative table is exact on the rational fragment and enumerates the programs; gradient(e, v) of the real library is evaluated at regular rational points for every declared variable and compared with the spec derivative; absent variables must give exactly 0.',
+         API_NOTE, 'DESIGN.md 3 (C02)')
+register('C03', 'TLA+ Api/Diff spec: compiled gradients/Jacobians of TLC-enumerated programs vs matrix of spec derivatives, all variable orders',
+         'For every enumerated program compile_gradient, CompiledExpression.gradient and compile_jacobian (single and multi-row) are executed for every permutation/superset variable list and compared entry by entry with the spec derivatives; closure names are recorded as path coverage.',
+         API_NOTE, 'DESIGN.md 3 (C03)')
+register('C17', 'TLA+ Diff spec second derivatives (symmetry checked by TLC) as oracle for compute_hessian / compile_hessian',
+         'For every enumerated program over <= 3 variables both Hessian APIs are executed for every permutation/superset variable list and compared, entry by entry and for symmetry, with the spec second derivatives at regular rational points.',
+         API_NOTE, 'DESIGN.md 3 (C17)')
+
 ALL = ['C%02d' % i for i in range(1, 21)]
 
 
